@@ -21,6 +21,7 @@ than through the enumerated validating calls; behaviour under `python -O` (144 g
 from __future__ import annotations
 
 import ast
+import builtins as _builtins
 import copy
 import json
 import os
@@ -103,6 +104,7 @@ class Facts:
         # validator calls and numpy validating calls
         self.vcalls: List[Tuple[str, FrozenSet[str], List[str]]] = []
         self.vcall_order: Dict[Tuple[str, FrozenSet[str]], int] = {}
+        self.alt_vcalls: List[Tuple[str, str]] = []      # (key with one arm of a conditional operand, key as written)
         seen = set()
         for cs in self.scan.calls:
             r = resolve_callee(prog, fi, cs.call)
@@ -110,6 +112,17 @@ class Facts:
             if r is not None and is_validator(r[0]) and r[0].qualname != fi.qualname:
                 args = ", ".join(self.scan.c.text(a) for a in cs.call.args[:3] if not isinstance(a, ast.Starred))
                 key = f"{r[0].short}({args})"
+                # an operand written as a conditional expression (validate(d if x is None else x)) also validates each of its arms
+                arms_of = []
+                for a in cs.call.args[:3]:
+                    if isinstance(a, ast.Starred):
+                        continue
+                    ra = fi.resolve(a)
+                    arms_of.append([self.scan.c.text(ra.body), self.scan.c.text(ra.orelse)] if isinstance(ra, ast.IfExp) else [self.scan.c.text(a)])
+                if any(len(x) > 1 for x in arms_of):
+                    import itertools as _it
+                    for combo in _it.islice(_it.product(*arms_of), 8):
+                        self.alt_vcalls.append((f"{r[0].short}({', '.join(combo)})", key))
             else:
                 d = dotted(cs.call.func) or ""
                 if d in ("np.transpose", "numpy.transpose") and len(cs.call.args) >= 2:
@@ -187,6 +200,23 @@ def load_table() -> dict:
         return json.load(fh)
 
 
+def _deps(key: str) -> FrozenSet[str]:
+    """Inputs a canonical operand text is computed from: free names and attributes of the receiver (callables and modules excluded)."""
+    try:
+        tree = ast.parse(key.replace("np.transpose(_, ", "(", 1) if key.startswith("np.transpose(_, ") else key, mode="eval")
+    except SyntaxError:
+        return frozenset()
+    called = {id(c.func) for c in ast.walk(tree) if isinstance(c, ast.Call)}
+    out = set()
+    for n in ast.walk(tree):
+        if isinstance(n, ast.Attribute) and isinstance(n.value, ast.Name) and n.value.id == "self" and id(n) not in called:
+            out.add("self." + n.attr)
+        elif isinstance(n, ast.Name) and n.id not in ("np", "numpy", "self", "_") and id(n) not in called and not hasattr(_builtins, n.id) \
+                and not n.id.startswith(("local", "each", "loopvar")):
+            out.add(n.id)
+    return frozenset(out)
+
+
 def _parse(key: str) -> FrozenSet[str]:
     return frozenset() if key in ("unconditional", "") else frozenset(key.split(" & "))
 
@@ -239,6 +269,19 @@ def check(prog: Program, res: Result, tier: str) -> None:
                 return False
         return True
 
+    def covered(xs, allowed_sets, depth=0) -> bool:
+        """Every case of the exit condition xs is a case of some reviewed exit; an isinstance over several types is split into its types
+        (two reviewed exits `isinstance(x, A)` / `isinstance(x, B)` merged into one `isinstance(x, (A, B))`)."""
+        if any(al and G.implied_by(al, xs) for al in allowed_sets):
+            return True
+        if depth > 2:
+            return False
+        for a in xs:
+            if a.startswith("isinstance(") and "|" in a:
+                subj, types = G._split2(a[len("isinstance("):-1])
+                return all(covered((xs - {a}) | {f"isinstance({subj}, {t})"}, allowed_sets, depth + 1) for t in types.split("|"))
+        return False
+
     def relevant_extra(exits, allowed, want):
         """Exits that precede the guard now, were not reviewed, and can actually take a case away from it: an exit whose conditions
         contradict the reviewed guard's own conditions cannot, nor can one that only fires in a sub-case of a reviewed exit."""
@@ -250,7 +293,7 @@ def check(prog: Program, res: Result, tier: str) -> None:
             xs = _parse(x[len("exit when "):]) if x.startswith("exit when ") else frozenset()
             if xs and any(G.contradicts(a, b) for a in xs for b in want):
                 continue
-            if xs and any(al and G.implied_by(al, xs) for al in allowed_sets):
+            if xs and covered(xs, allowed_sets):
                 continue
             out.append(x)
         return out
@@ -314,8 +357,9 @@ def check(prog: Program, res: Result, tier: str) -> None:
             want = _parse(e.get("when", ""))
             allowed = set(e.get("exits", []))
             verdict = None
+            same_as = {e["key"]} | {written for arm_key, written in f.alt_vcalls if arm_key == e["key"]}
             for key, conds, exits in f.vcalls:
-                if key == e["key"] and subsumed(conds, want, f, f.vcall_order.get((key, conds), 0), allowed):
+                if key in same_as and subsumed(conds, want, f, f.vcall_order.get((key, conds), 0), allowed):
                     extra = relevant_extra(exits, allowed, want)
                     if not extra:
                         verdict = ("OK", "")
@@ -326,6 +370,17 @@ def check(prog: Program, res: Result, tier: str) -> None:
                 for key, conds, exits in f.vcalls:
                     if G.strip_locals(key) == G.strip_locals(e["key"]) and frozenset(G.strip_locals(a) for a in conds) <= want_n:
                         extra = relevant_extra([G.strip_locals(x) for x in exits], {G.strip_locals(x) for x in allowed}, want_n)
+                        if not extra:
+                            verdict = ("OK", "")
+                            break
+            if verdict is None and rule == "GD-val":
+                # numpy's own validation of a permutation: the operand may be re-worded freely as long as it is still computed from the
+                # same inputs (parameters / attributes of the receiver) and handed to the transposition under the reviewed conditions
+                want_deps = _deps(e["key"])
+                for key, conds, exits in f.vcalls:
+                    if key.startswith("np.transpose(") and want_deps and _deps(key) == want_deps \
+                            and subsumed(conds, want, f, f.vcall_order.get((key, conds), 0), allowed):
+                        extra = relevant_extra(exits, allowed, want)
                         if not extra:
                             verdict = ("OK", "")
                             break
